@@ -59,6 +59,7 @@ type vfSimCfg struct {
 	Outages         [][2]uint32 // when set, the outage is an environment choice among these
 	Trace           bool
 	CleanPath       bool        // C18: assert that every data sn is transmitted exactly once
+	BatchReader     bool        // the applications run once per instant, after ALL datagrams that arrive at that instant were input (a receive loop that reads a batch before the reader goroutine gets to run)
 	FateFrom        int         // fates are enumerated for datagrams [FateFrom, FateFrom+K): exploration from a warmed-up connection
 	FixedFates      []int       // replay these fates instead of choosing (differential runs)
 	WriteGapMs      uint32      // the i-th write of end A becomes available at i*WriteGapMs (application-limited sender)
@@ -707,6 +708,9 @@ func (s *vfSim) run() {
 				s.cfg.Outage = [2]uint32{s.now, s.now + s.cfg.OutageAfterResumeMs}
 			}
 		case 3: // the application has produced its next write
+		}
+		if s.cfg.BatchReader && ev.kind == 0 && s.q.Len() > 0 && s.q[0].t == s.now && s.q[0].kind == 0 {
+			continue // more datagrams arrive at this very instant: they are input before the applications run
 		}
 		s.app(en)
 		s.app(s.e[1-ev.end])
